@@ -56,8 +56,19 @@ SITES = [
     dict(id='savers-credit-agi-limit', kind='cmp', line='1040_s3.4', amount=['v|1040.11'], official='SAVERS_LIMIT', selectors=[S], ops=['<=']),
     # --- EIC investment income cap and AGI limits
     dict(id='eic-agi-limit', kind='eic', line={2021: '1040.27a', 2022: '1040.27', 2023: '1040.27'}, amount=['v|1040.11']),
+    # --- 2021 recovery rebate credit worksheet
+    dict(id='rebate-phaseout-start', kind='cmp', line={2021: '1040_recovery_rebate_credit_wkst.9_checkbox'}, amount=['v|1040.11'], official='REBATE_START', selectors=[S], ops=['>']),
+    dict(id='rebate-phaseout-end', kind='cmp', line={2021: '1040_recovery_rebate_credit_wkst.10_checkbox'}, amount=['v|1040_recovery_rebate_credit_wkst.9'], official='REBATE_END', selectors=[S], ops=['>']),
+    dict(id='rebate-phaseout-range', kind='ratio', line={2021: '1040_recovery_rebate_credit_wkst.11'}, official='REBATE_RANGE', selectors=[S], symbol='v|1040_recovery_rebate_credit_wkst.10'),
+    dict(id='rebate-per-dependent', kind='coef', line={2021: '1040_recovery_rebate_credit_wkst.7'}, official='REBATE_PER_PERSON', symbol='i|1040_recovery_rebate_credit_wkst.dependents_ssn_before_due_date'),
+    # --- Schedule B required above $1,500 of interest / ordinary dividends (Form 1040 lines 2b, 3b)
+    dict(id='schedule-b-interest-threshold', kind='const', line='1040.2b', mentions=['1099-int:{n}.box_1'], official='SCHED_B_THRESHOLD', selectors=[]),
+    dict(id='schedule-b-dividend-threshold', kind='const', line='1040.3b', mentions=['1099-div:{n}.box_1a'], official='SCHED_B_THRESHOLD', selectors=[]),
+    # --- Additional Medicare Tax: employer withholding trigger and threshold on total Medicare wages (Form 1040 line 25c -> Form 8959)
+    dict(id='addl-medicare-form-required', kind='const', line={2021: '1040.25c', 2022: '1040.25c', 2023: '1040.25c'}, mentions=['w-2:{n}.box_5'], official='ADDL_MEDICARE_SET', selectors=[S]),
     # --- NC
     dict(id='nc-standard-deduction', kind='echo', line='nc_d-400_sa.nc_standard_deduction', official='NC_STD', selectors=[S],
          assume=[('i|1040.standard_deduction_exceptions', False)]),
+    dict(id='nc-child-deduction-table', kind='table', line='nc_d-400_child_deduction_wkst.4', official='NC_CHILD', selectors=[S], amount='v|nc_d-400_child_deduction_wkst.2'),
     dict(id='nc-rate', kind='coef', line='nc_d-400.15', official='NC_RATE', symbol='v|nc_d-400.14'),
 ]
